@@ -91,9 +91,20 @@ class SAliasStr(STerm):
         return SBool(z3.And(str_is_id(self.t), dom[str_id(self.t)]))
 
 
+id_as_tag = z3.Function("node_id_string_as_tag", Id, Tag)  # the id of a node is a str: it may be spelled like a tag
+
+
+class SNodeIdStr(SId):
+    """the id (a str) of a node that was given by reference"""
+
+    def _vc_isinstance(self, cls):
+        classes = cls if isinstance(cls, tuple) else (cls,)
+        return str in classes
+
+
 class SAliasNode(Sym):
     def __init__(self, i):
-        self.id = SId(i)
+        self.id = SNodeIdStr(i)
 
     def _vc_isinstance(self, cls):
         from tawazi.node import ExecNode
@@ -126,7 +137,17 @@ class AliasToIds:
                 return SXnMap._vc_contains(self, k)
 
         dag.exec_nodes = _XnMap(dom, "dag.exec_nodes")
-        dag.graph_ids.get_tagged_nodes = lambda a: SList(SSet.define("tagged", Id, lambda q: has_tag(q, a.t))) if isinstance(a, SAliasStr) else SList(SSet(Id))
+        def tagged(a):
+            # contract of DiGraphEx.get_tagged_nodes: the list of the DISTINCT nodes carrying the tag (length = their number)
+            if isinstance(a, SAliasStr):
+                S_ = SSet.define("tagged", Id, lambda q: has_tag(q, a.t))
+                return SList(S_, S_.c)
+            if isinstance(a, SNodeIdStr):  # the id string of a referenced node, used as a tag: other nodes may carry a tag spelled like it
+                S_ = SSet.define("tagged", Id, lambda q: has_tag(q, id_as_tag(a.t)))
+                return SList(S_, S_.c)
+            return SList(SSet(Id), z3.IntVal(0))
+
+        dag.graph_ids.get_tagged_nodes = tagged
         dag.graph_ids.tags = "TAGS"
         dag.get_node_by_id = lambda a: SXn(str_id(a.t))
         n = "alias_to_ids"
@@ -138,9 +159,8 @@ class AliasToIds:
                 C.check(z3.Not(dom[i]), f"{n}.exceptional.C12.ValueError_iff_the_node_is_not_in_the_DAG", {"C12"}, "post")
                 return "raises ValueError"
             C.check(dom[i], f"{n}.post.C12.foreign_node_refused", {"C12"}, "post")
-            C.check(z3.BoolVal(isinstance(r, list) and len(r) == 1) , f"{n}.post.C12.a_reference_resolves_to_one_id", {"C12"}, "post")
-            if isinstance(r, list) and len(r) == 1:
-                C.check(term(r[0]) == i, f"{n}.post.C12.a_reference_resolves_to_its_own_id", {"C12"}, "post")
+            S = sym.as_set(r, Id)
+            C.check(z3.ForAll([x], S.mem(x) == (x == i)), f"{n}.post.C12.a_reference_resolves_to_its_own_id_and_nothing_else", {"C12"}, "post")
             return "return"
         if case == "other":
             try:
@@ -158,7 +178,9 @@ class AliasToIds:
             C.check(z3.Not(z3.Or(some_tagged, is_id)), f"{n}.exceptional.C12.ValueError_iff_neither_tag_nor_id", {"C12"}, "post")
             return "raises ValueError"
         C.check(z3.Or(some_tagged, is_id), f"{n}.post.C12.unknown_alias_refused", {"C12"}, "post")
-        S = sym.as_set(r, Id) if not isinstance(r, list) else sym.as_set(r, Id)
+        if isinstance(r, list):
+            r = [SId(str_id(e.t)) if isinstance(e, SAliasStr) else e for e in r]  # a str alias returned as an id IS that id
+        S = sym.as_set(r, Id)
         C.check(z3.Implies(some_tagged, z3.ForAll([x], S.mem(x) == has_tag(x, a))), f"{n}.post.C12.a_tag_resolves_to_all_nodes_carrying_it_and_wins_over_an_id", {"C12"}, "post")
         C.check(z3.Implies(z3.Not(some_tagged), z3.ForAll([x], S.mem(x) == (x == str_id(a)))), f"{n}.post.C12.otherwise_the_id_itself", {"C12"}, "post")
         return "return"
